@@ -220,11 +220,15 @@ def make_string_type(prj, rng, name, cap, used_ids):
     return t
 
 
-def _assign_ids(prj, rng, t, used_ids, predefined=False):
+def _assign_ids(prj, rng, t, used_ids, predefined=False, edge=False):
+    tries = 0
     while True:
+        tries += 1
         tid = rng.randrange(0xF00, 0x1000) if predefined else rng.randrange(0x100, 0xF00)
         if rng.random() < 0.15:  # the ends of the user / predefined template-id ranges
             tid = rng.choice([0xF00, 0xF01, 0xFFF] if predefined else [0x100, 0x101, 0xEFE, 0xEFF])
+        if edge and not predefined and tries <= 4:  # first and last id of the user range
+            tid = rng.choice([0x100, 0xEFF])
         if tid not in used_ids["template"]:
             used_ids["template"].add(tid)
             break
@@ -246,10 +250,17 @@ def make_udt(prj, rng, name, pool, used_ids, depth, max_members=12):
     members = []
     n = rng.randint(1, max_members)
     host, host_bits, host_count = None, 0, 0
+    # "CTL" / "Control" are ordinary, visible member names in a user-defined type (the library hides them only in predefined
+    # types, which are not generated with these names - see ASSUMPTIONS of C05); paired with the first/last user template id
+    predefined = rng.random() < 0.08
+    ctl_at = rng.randrange(n) if (not predefined and rng.random() < 0.12) else -1
     i = 0
     while i < n:
         r = rng.random()
         mname = _name(rng, used, rng.choice([1, 2, 4, 6, 7, 12, 13, 24, 40]))
+        if i == ctl_at:
+            mname = rng.choice(["CTL", "Control"])
+            used.add(mname)
         if r < 0.28:  # BOOL member on a hidden host
             if host is None or host_bits == 8:
                 hname = f"ZZZZZZZZZZ{name[:12]}{host_count}"
@@ -281,7 +292,7 @@ def make_udt(prj, rng, name, pool, used_ids, depth, max_members=12):
     t.members = members
     al = t.align()
     t.size = max(4, (off + al - 1) // al * al)
-    _assign_ids(prj, rng, t, used_ids, predefined=rng.random() < 0.08)
+    _assign_ids(prj, rng, t, used_ids, predefined=predefined, edge=ctl_at >= 0 and rng.random() < 0.6)
     return t
 
 
@@ -599,6 +610,12 @@ def redefine_type(prj, rng):
     used = {"template": set(), "handle": {x.handle for x in prj.types.values()}, "instance": set()}
     pool = [x for x in prj.types.values() if x.kind == "string" and x.size <= 200]
     new = make_udt(scratch, rng, t.name, pool, used, 1, max_members=rng.choice([2, 5, 9]))
+    if not 0x100 <= t.template_id <= 0xEFF:
+        # the type keeps its (predefined-range) template id: "CTL"/"Control" members of predefined types are hidden by design
+        # and are not generated (ASSUMPTIONS of C05)
+        for m in new.members:
+            if m.name in ("CTL", "Control"):
+                m.name += "_m"
     t.members, t.size, t.handle = new.members, new.size, new.handle
     t._desc = None
     for tag in prj.user_tags():
